@@ -30,14 +30,16 @@ VARIABLES l,        \* next line to consume
           done0,    \* jobs that had ended ok before the current incarnation
           failed,   \* instances with a failed job in the current incarnation
           phase,    \* number of restarts so far
+          pcr,      \* property the restart guards belong to: "C06" (restart after a
+                    \* failure) or "C05" (restart after an interruption of mrp)
           weakp,    \* the program has an unforked merge over a run-time collection
           tainted,  \* the known "unforked-merge" defect has manifested in this run
           bad       \* violations found so far
 
-vars == <<l, run, exp, faults, begun, ended, killed, done0, failed, phase, weakp, tainted, bad>>
+vars == <<l, run, exp, faults, begun, ended, killed, done0, failed, phase, pcr, weakp, tainted, bad>>
 
 Init == /\ l = 1 /\ run = "" /\ exp = <<>> /\ faults = <<>> /\ begun = {} /\ ended = <<>>
-        /\ killed = {} /\ done0 = {} /\ failed = {} /\ phase = 0
+        /\ killed = {} /\ done0 = {} /\ failed = {} /\ phase = 0 /\ pcr = "C06"
         /\ weakp = FALSE /\ tainted = FALSE /\ bad = <<>>
 
 Ev == Trace[l]
@@ -60,6 +62,7 @@ RunBegin ==
     /\ faults' = FnOf(Ev.faults)
     /\ begun' = {} /\ ended' = <<>> /\ killed' = {} /\ done0' = {} /\ failed' = {}
     /\ phase' = 0 /\ tainted' = FALSE /\ weakp' = Ev.weak
+    /\ pcr' = IF Ev.kind = "crash" THEN "C05" ELSE "C06"
     /\ UNCHANGED bad
 
 (* ---- guards on the start of a job ---- *)
@@ -79,7 +82,7 @@ BeginViolations ==
      \o (IF j \in begun
          THEN <<Viol("C03", "job executed more than once")>> ELSE <<>>)
      \o (IF j \notin begun /\ j \in done0
-         THEN <<Viol("C06", "a job whose completion had been recorded was executed again after the restart")>>
+         THEN <<Viol(pcr, "a job whose completion had been recorded was executed again after the restart")>>
          ELSE <<>>)
      \o (IF known /\ \E d \in Range(e.deps) : ~InstDone(d)
          THEN <<Viol("C02", "job started before its dependency finished: "
@@ -103,27 +106,37 @@ StageBegin ==
     /\ begun' = begun \cup {Ev.job}
     /\ killed' = killed \ {Ev.job}
     /\ tainted' = (tainted \/ (Ev.job \in DOMAIN exp /\ WeakBroken(exp[Ev.job])))
-    /\ UNCHANGED <<run, exp, faults, ended, done0, failed, phase, weakp>>
+    /\ UNCHANGED <<run, exp, faults, ended, done0, failed, phase, pcr, weakp>>
 
 StageEnd ==
     /\ Ev.ev = "StageEnd"
     /\ ended' = (Ev.job :> Ev.outcome) @@ ended
     /\ failed' = IF Ev.outcome # "ok" /\ Ev.job \in DOMAIN exp
                  THEN failed \cup {exp[Ev.job].inst} ELSE failed
-    /\ UNCHANGED <<run, exp, faults, begun, killed, done0, phase, weakp, tainted, bad>>
+    /\ UNCHANGED <<run, exp, faults, begun, killed, done0, phase, pcr, weakp, tainted, bad>>
 
 (* a job that was running when mrp exited dies with it *)
 StageKilled ==
     /\ Ev.ev = "StageKilled"
     /\ killed' = killed \cup {Ev.job}
-    /\ UNCHANGED <<run, exp, faults, begun, ended, done0, failed, phase, weakp, tainted, bad>>
+    /\ UNCHANGED <<run, exp, faults, begun, ended, done0, failed, phase, pcr, weakp, tainted, bad>>
+
+(* mrp was interrupted: killed outright, or by a signal it handles - then the
+   pipestance must be left unlocked (flag = no _lock after the exit) *)
+Interrupted ==
+    /\ Ev.ev = "Interrupted"
+    /\ bad' = bad \o (IF Ev.kind # "SIGKILL" /\ ~Ev.flag
+                      THEN <<Viol("C05", "mrp exited on the handled signal " \o Ev.kind \o " but left the pipestance locked")>>
+                      ELSE <<>>)
+    /\ UNCHANGED <<run, exp, faults, begun, ended, killed, done0, failed, phase, pcr, weakp, tainted>>
 
 (* ---- guards on the final state of an incarnation ---- *)
 EndViolations ==
     LET st == Ev.outcome
         um == IF tainted \/ (weakp /\ Ev.kind = "merge-unresolved") THEN "unforked-merge: " ELSE ""
-        pp == IF phase = 0 THEN "C03" ELSE "C06"
-        after == IF phase = 0 THEN "" ELSE "after the fault was removed and mrp restarted, "
+        pp == IF phase = 0 THEN "C03" ELSE pcr
+        after == IF phase = 0 THEN "" ELSE IF pcr = "C05" THEN "after mrp was interrupted and restarted, "
+                 ELSE "after the fault was removed and mrp restarted, "
     IN
     IF ~Faulty THEN
         (IF st \notin {"complete", "disabled"}
@@ -133,7 +146,7 @@ EndViolations ==
              THEN <<Viol(pp, after \o "job was never executed: "
                          \o (CHOOSE k \in DOMAIN exp : ~exp[k].ghost /\ ~OkEnded(k)))>>
              ELSE <<>>)
-         \o (IF ~Ev.flag THEN <<Viol(IF phase = 0 THEN "C01" ELSE "C06",
+         \o (IF ~Ev.flag THEN <<Viol(IF phase = 0 THEN "C01" ELSE pcr,
                  um \o after \o "top-level outputs differ from what the return bindings denote: " \o Ev.txt)>> ELSE <<>>))
     ELSE
         (IF st # "failed"
@@ -147,7 +160,7 @@ EndViolations ==
 RunEnd ==
     /\ Ev.ev = "RunEnd"
     /\ bad' = bad \o EndViolations
-    /\ UNCHANGED <<run, exp, faults, begun, ended, killed, done0, failed, phase, weakp, tainted>>
+    /\ UNCHANGED <<run, exp, faults, begun, ended, killed, done0, failed, phase, pcr, weakp, tainted>>
 
 (* the operator removes the fault and starts mrp again on the same directory *)
 Restart ==
@@ -156,15 +169,15 @@ Restart ==
     /\ faults' = <<>>
     /\ done0' = {k \in DOMAIN ended : OkEnded(k)}
     /\ begun' = {} /\ failed' = {}
-    /\ UNCHANGED <<run, exp, ended, killed, weakp, tainted, bad>>
+    /\ UNCHANGED <<run, exp, ended, killed, pcr, weakp, tainted, bad>>
 
 Other ==
-    /\ Ev.ev \notin {"RunBegin", "StageBegin", "StageEnd", "StageKilled", "RunEnd", "Restart"}
-    /\ UNCHANGED <<run, exp, faults, begun, ended, killed, done0, failed, phase, weakp, tainted, bad>>
+    /\ Ev.ev \notin {"RunBegin", "StageBegin", "StageEnd", "StageKilled", "RunEnd", "Restart", "Interrupted"}
+    /\ UNCHANGED <<run, exp, faults, begun, ended, killed, done0, failed, phase, pcr, weakp, tainted, bad>>
 
 Next == /\ l <= Len(Trace)
         /\ l' = l + 1
-        /\ (RunBegin \/ StageBegin \/ StageEnd \/ StageKilled \/ RunEnd \/ Restart \/ Other)
+        /\ (RunBegin \/ StageBegin \/ StageEnd \/ StageKilled \/ RunEnd \/ Restart \/ Interrupted \/ Other)
 
 Spec == Init /\ [][Next]_vars
 
